@@ -2646,12 +2646,10 @@ impl Variant for DataType {
                             .into_data_type(&right)
                             .map_or(false, |left| left.is_subset_of(&right))
                     }
-                    (s, DataType::Optional(o)) => {
-                        let right = DataType::Optional(o.clone());
-                        s.clone()
-                            .into_data_type(&right)
-                            .map_or(false, |left| left.is_subset_of(&right))
-                    }
+                    // A type that is not optional is a subset of option(T) iff it is a subset of T
+                    // (going through the injection into option(T) asks the same question again
+                    // and does not terminate when unions are involved)
+                    (s, DataType::Optional(o)) => s.is_subset_of(o.data_type()),
                     // let's try to be conservative. For any other combination return false
                     _ => false,
                 }
